@@ -66,54 +66,6 @@ theorem preview_faithful_remove (cwd : String) (sels : List String) (inv : Inv) 
 
 /-! ## faithful (sync) -/
 
-/-- events a preview loop adds are announcements only -/
-theorem indexOne_dry_proj (P : List String) (st : Run) (r : Repo) :
-    performedIndexing (indexOne true P st r).events = performedIndexing st.events ∧
-    performedRemovals (indexOne true P st r).events = performedRemovals st.events ∧
-    announcedRemovals (indexOne true P st r).events = announcedRemovals st.events := by
-  unfold indexOne
-  cases r.head with
-  | none => simp
-  | some h =>
-    simp only [↓reduceIte]
-    split <;> simp [performedIndexing, performedRemovals, announcedRemovals]
-
-theorem dry_proj (P : List String) (repos : List Repo) (st : Run) :
-    performedIndexing (repos.foldl (indexOne true P) st).events = performedIndexing st.events ∧
-    performedRemovals (repos.foldl (indexOne true P) st).events = performedRemovals st.events ∧
-    announcedRemovals (repos.foldl (indexOne true P) st).events = announcedRemovals st.events := by
-  induction repos generalizing st with
-  | nil => exact ⟨rfl, rfl, rfl⟩
-  | cons r t ih =>
-    rw [List.foldl_cons]
-    obtain ⟨a, b, c⟩ := ih (indexOne true P st r)
-    obtain ⟨a', b', c'⟩ := indexOne_dry_proj P st r
-    exact ⟨a.trans a', b.trans b', c.trans c'⟩
-
-/-- events a forced loop adds are performed actions only -/
-theorem indexOne_force_proj (P : List String) (st : Run) (r : Repo) :
-    announcedIndexing (indexOne false P st r).events = announcedIndexing st.events ∧
-    performedRemovals (indexOne false P st r).events = performedRemovals st.events ∧
-    announcedRemovals (indexOne false P st r).events = announcedRemovals st.events := by
-  unfold indexOne
-  cases r.head with
-  | none => simp [announcedIndexing, performedRemovals, announcedRemovals]
-  | some h =>
-    simp only [Bool.false_eq_true, ↓reduceIte]
-    split <;> simp [announcedIndexing, performedRemovals, announcedRemovals]
-
-theorem force_proj (P : List String) (repos : List Repo) (st : Run) :
-    announcedIndexing (repos.foldl (indexOne false P) st).events = announcedIndexing st.events ∧
-    performedRemovals (repos.foldl (indexOne false P) st).events = performedRemovals st.events ∧
-    announcedRemovals (repos.foldl (indexOne false P) st).events = announcedRemovals st.events := by
-  induction repos generalizing st with
-  | nil => exact ⟨rfl, rfl, rfl⟩
-  | cons r t ih =>
-    rw [List.foldl_cons]
-    obtain ⟨a, b, c⟩ := ih (indexOne false P st r)
-    obtain ⟨a', b', c'⟩ := indexOne_force_proj P st r
-    exact ⟨a.trans a', b.trans b', c.trans c'⟩
-
 /-- one step of both loops: what the preview announces for `r` is what the forced loop does for `r`, provided the
     forced loop's inventory agrees with the original one on `r`'s first shard path, up to the planned removals `P` -/
 theorem indexOne_agree (P : List String) (inv0 : Inv) (stp stf : Run) (r : Repo) (hp : stp.inv = inv0)
